@@ -20,6 +20,7 @@ import (
 	"errors"
 	"fmt"
 	"math"
+	"sync/atomic"
 )
 
 // XferFilter handles byte stream of message when transfer.
@@ -41,6 +42,19 @@ var xferFilterMap = struct {
 	idMap:   make(map[byte]XferFilter),
 	nameMap: make(map[string]XferFilter),
 }
+
+// ErrExceedSizeLimit is returned by a filter whose unpacked payload would exceed the size limit.
+var ErrExceedSizeLimit = errors.New("size of unpacked payload exceeds limit")
+
+// sizeLimit bounds the size of a payload produced while unpacking (0 means no bound).
+// The socket package keeps it equal to the message size limit of reading.
+var sizeLimit uint32
+
+// SetSizeLimit sets the upper bound on the size of an unpacked payload (0 means no bound).
+func SetSizeLimit(n uint32) { atomic.StoreUint32(&sizeLimit, n) }
+
+// SizeLimit returns the upper bound on the size of an unpacked payload (0 means no bound).
+func SizeLimit() uint32 { return atomic.LoadUint32(&sizeLimit) }
 
 // ErrXferPipeTooLong error
 var ErrXferPipeTooLong = errors.New("The length of transfer pipe cannot be bigger than 255")
